@@ -30,7 +30,11 @@ RULE = ('lookup: a FRESH interpreter per case (module defaults are read from the
         'and .. components — with probe files such as <root>2/x.py; the same texts for APP_ROOT from code and from '
         'DEEP_APP_ROOT through deep.start). timer: RepeatedTimer with the interval as '
         'number or text. d30: IN_APP_INCLUDE/EXCLUDE given in code as the documented comma separated str (known '
-        'finding stream). ga: ConfigService.__getattribute__ alone, in-process — code dict of 0–6 entries over module settings, '
+        'finding stream). use: every DOCUMENTED setting (enumerated from the doc table; IN_APP_EXCLUDE / APP_ROOT have their own '
+        'streams) at its USE SITE — GRPCService.start channel kind and target, LongPoll.start timer, logging.init file, '
+        'AuthProvider.get_provider, is_app_frame — given in code as the native value (bool, int, float, list) and as '
+        'DEEP_<KEY> text (deep.config re-imported), both routes must make the consumer do the same. seq: 2-4 frame configurations one after the other in the SAME (fresh) interpreter over the same files, '
+        'each step judged by its own configuration (self-contained replays for process-lifetime state). ga: ConfigService.__getattribute__ alone, in-process — code dict of 0–6 entries over module settings, '
         'unknown names, names the object has of its own and dunders (None, plain values, callables of every kind), an object '
         'whose custom dict is None (a fifth), DEEP_<name> for names the module does not have; ~14 names read per case. '
         'Non-trivial = a level below "code" decided / an exclusion or inclusion matched / the timer '
@@ -208,13 +212,27 @@ class Stub:
         return self.cfg.is_app_frame(filename)
 
 
+def collector_source(cfg):
+    """what FrameCollector asks in production: the snapshot action context of a trigger under this configuration
+    (its is_app_frame is the route every collected StackFrame takes); the bare stub only if it cannot be built"""
+    try:
+        import types as _t
+        from deep.processor.context.snapshot_action import SnapshotActionContext
+        src = SnapshotActionContext(_t.SimpleNamespace(config=cfg, ts=0, frame=None), _t.SimpleNamespace(config={}))
+        src.is_app_frame
+        return src
+    except Exception:
+        return Stub(cfg)
+
+
 def frames(cfg, files, base=None):
     from deep.processor.frame_collector import FrameCollector
     out = []
+    src = collector_source(cfg)
     for f in files:
         try:
             app, m = cfg.is_app_frame(f)
-            short, app2 = FrameCollector(Stub(cfg), None).parse_short_name(f)
+            short, app2 = FrameCollector(src, None).parse_short_name(f)
             out.append({'app': app, 'match': enc(m, base)['s'] if m is not None else None,
                         'short': enc(short, base)['s'], 'short_app': app2})
         except Exception as e:
@@ -450,6 +468,51 @@ def g_ga(rng):
     return {'kind': 'ga', 'custom': custom, 'custom_none': rng.random() < 0.2, 'env': env, 'names': names}
 
 
+USE_VALUES = {
+    'SERVICE_URL': [(t, {'s': t}) for t in ('host:1', 'deep:43315', '', ' spaced ', 'a,b', 'é:1')],
+    'SERVICE_SECURE': [('False', {'b': False}), ('True', {'b': True}), ('0', {'i': 0}), ('1', {'i': 1}),
+                       ('false', {'s': 'false'}), ('yes', {'s': 'yes'}), ('1.0', {'f': '1.0'}), ('', {'s': ''}),
+                       ('no', {'s': 'no'}), ('T', {'s': 'T'})],
+    'POLL_TIMER': [('0.25', {'f': '0.25'}), ('1.5', {'f': '1.5'}), ('10', {'i': 10}), ('1', {'i': 1}),
+                   ('0.05', {'f': '0.05'}), ('2.5', {'s': '2.5'}), (' 2 ', {'i': 2}), ('30', {'i': 30}),
+                   ('0.5', {'f': '0.5'}), ('10.5', {'f': '10.5'})],
+    'LOGGING_CONF': [(t, {'s': t}) for t in ('/nonexistent/logging.conf', '', 'rel.conf')],
+    'SERVICE_AUTH_PROVIDER': [(t, {'s': t}) for t in ('', 'deep.api.auth.BasicAuthProvider', 'nomodule.Nope',
+                                                      'noclasspath')],
+}
+USE_SKIPPED = ('IN_APP_EXCLUDE', 'APP_ROOT')    # their own streams: frame/pxasym (disclosed asymmetry), lookup/start
+
+
+def g_use(rng):
+    """one DOCUMENTED setting (enumerated from the doc table of the tree under test) at its USE SITE, given in code as
+    the native value and as DEEP_<KEY> text: the consumer must do the same thing on both routes"""
+    key = rng.choice([k for k in DOCUMENTED if k not in USE_SKIPPED])
+    if key == 'IN_APP_INCLUDE':
+        ps = g_prefixes(rng) or ['/app']
+        t, v = ','.join(ps), {'l': [{'s': p} for p in ps]}
+    elif key in USE_VALUES:
+        t, v = rng.choice(USE_VALUES[key])
+    else:
+        t = rng.choice(TEXTS)       # a newly documented setting: text in both forms
+        v = {'s': t}
+    return {'kind': 'use', 'key': key, 'text': t, 'native': v, 'files': g_paths(rng, 4)}
+
+
+def g_seq(rng):
+    """several configurations one after the other IN THE SAME PROCESS over the same files (a new agent instance after a
+    shutdown, tests, embedding hosts): every step is judged by its own include/exclude/root — the case carries its
+    whole history, so a replay of it is self-contained"""
+    steps = []
+    for _ in range(rng.choice([2, 2, 3, 4])):
+        f = g_frame(rng)
+        steps.append({'custom': f['custom'], 'env': f['env']})
+    return {'kind': 'seq', 'steps': steps, 'files': g_paths(rng, rng.choice([3, 5]))}
+
+
+def seq_step(case, i):
+    return dict(case['steps'][i], kind='frame', files=case['files'], d30=False, pxasym=False)
+
+
 def g_timer(rng):
     return {'kind': 'timer', 'interval': rng.choice([{'s': '0.02'}, {'f': '0.02'}, {'s': ' 0.05 '}, {'s': '1'}, {'i': 1},
                                                      {'s': '10'}, {'i': 10}, {'s': '5e-2'}, {'s': '10.5'}, {'f': '2.5'},
@@ -470,12 +533,26 @@ def gen(rng, tier):
             yield g_frame(rng, pxasym=True)
         elif k % 10 == 4:
             yield g_ga(rng)
+        elif k % 40 == 19:
+            yield g_seq(rng)
+        elif k % 10 == 6:
+            yield g_use(rng)
         else:
             yield g_frame(rng)
 
 
+def corpus_seq():
+    A = lambda root, incl, excl: {'custom': [['APP_ROOT', {'s': root}], ['IN_APP_INCLUDE', {'l': [{'s': x} for x in incl]}],   # noqa: E731
+                                             ['IN_APP_EXCLUDE', {'l': [{'s': x} for x in excl]}]], 'env': {}}
+    files = ['/srv/app/service/handler.py', '/srv/app/vendor/orm/orm.py', '/opt/shared/m.py', '/elsewhere/x.py']
+    return [{'kind': 'seq', 'files': files,
+             'steps': [A('/srv/app', [], []), A('/srv/app', [], ['/srv/app/vendor']), A('/nowhere/', ['/opt/shared'], []),
+                       A('/srv', ['/srv/app/vendor'], ['/srv/app/service']),
+                       {'custom': [['APP_ROOT', {'s': '/srv/app/'}]], 'env': {'DEEP_IN_APP_EXCLUDE': '/opt,/srv/app/service'}}]}]
+
+
 def corpus():
-    return [
+    return corpus_seq() + [
         {'kind': 'frame', 'custom': [['APP_ROOT', {'s': '/app'}]], 'env': {'DEEP_IN_APP_EXCLUDE': '/app/src/vendor,/opt',
                                                                           'DEEP_IN_APP_INCLUDE': '/opt/shared'},
          'files': ['/app/src/vendor/lib/v.py', '/opt/shared/m.py', '/app/main.py', '$PX/lib/x.py', 'relative/r.py'],
@@ -672,9 +749,135 @@ def run_ga(case):
                     os.environ[k] = v
 
 
+SEQ_SCRIPT = PY_MK + r'''
+import sys, json, os, logging
+logging.disable(logging.CRITICAL)
+case = json.loads(sys.stdin.read())
+out = {'steps': [], 'exec_prefix': sys.exec_prefix}
+try:
+    from deep.config import ConfigService
+    from deep.config.tracepoint_config import TracepointConfigService
+    for step in case['steps']:
+        for k in ('DEEP_IN_APP_INCLUDE', 'DEEP_IN_APP_EXCLUDE'):
+            os.environ.pop(k, None)
+        os.environ.update(step['env'])
+        try:
+            cfg = ConfigService({k: mk(v) for k, v in step['custom']}, tracepoints=TracepointConfigService())
+            out['steps'].append({'frames': frames(cfg, case['files']), 'exec_prefix': sys.exec_prefix})
+        except Exception as e:
+            out['steps'].append({'raised': '%s: %s' % (type(e).__name__, e)})
+except Exception as e:
+    out['raised'] = '%s: %s' % (type(e).__name__, e)
+print('\n@@' + json.dumps(out))
+'''
+
+
+def run_seq(case):
+    """the whole sequence in ONE fresh interpreter: what a step sees of earlier steps is part of the case, nothing of
+    other cases is — so shrinking and replaying a failing sequence is meaningful"""
+    px = sys.exec_prefix
+    env = {'PATH': os.environ.get('PATH', '/usr/bin:/bin'), 'PYTHONPATH': core.SRC, 'HOME': os.environ.get('HOME', '/tmp'),
+           'PYTHONIOENCODING': 'utf-8', 'LANG': 'C.UTF-8'}
+    payload = {'files': [px_sub(f, px) for f in case['files']],
+               'steps': [{'custom': json.loads(px_sub(json.dumps(st['custom']), px)),
+                          'env': {k: px_sub(v, px) for k, v in st['env'].items()}} for st in case['steps']]}
+    try:
+        p = subprocess.run([PY, '-W', 'ignore', '-c', SEQ_SCRIPT], input=json.dumps(payload), env=env,
+                           capture_output=True, text=True, timeout=180)
+    except subprocess.TimeoutExpired:
+        raise core.Infra('fresh interpreter did not finish in 180 s')
+    lines = [l for l in p.stdout.splitlines() if l.startswith('@@')]
+    if not lines:
+        return {'raised': f'interpreter exit {p.returncode}: {p.stderr.strip().splitlines()[-2:]}', 'steps': []}
+    return json.loads(lines[-1][2:])
+
+
+def use_site(cfg, key, files):
+    """what the consumer of `key` does with this configuration"""
+    import logging as pylog
+    try:
+        if key in ('SERVICE_URL', 'SERVICE_SECURE'):
+            import deep.grpc.grpc_service as gsm
+            chosen = []
+            saved = (gsm.grpc.secure_channel, gsm.grpc.insecure_channel, gsm.grpc.ssl_channel_credentials)
+            try:
+                gsm.grpc.secure_channel = lambda target, *a, **k: chosen.append(['secure', enc(target)])
+                gsm.grpc.insecure_channel = lambda target, *a, **k: chosen.append(['insecure', enc(target)])
+                gsm.grpc.ssl_channel_credentials = lambda *a, **k: None
+                gsm.GRPCService(cfg).start()
+            finally:
+                gsm.grpc.secure_channel, gsm.grpc.insecure_channel, gsm.grpc.ssl_channel_credentials = saved
+            return {'channel': chosen}
+        if key == 'POLL_TIMER':
+            from deep.poll.poll import LongPoll
+            lp = LongPoll(cfg, None)
+            lp.poll = lambda: None
+            lp.start()
+            try:
+                time.sleep(0.03)
+                return {'interval': repr(float(lp.timer.interval)), 'alive': lp.timer.thread.is_alive()}
+            finally:
+                if lp.timer.thread.is_alive():
+                    lp.shutdown()
+        if key == 'LOGGING_CONF':
+            import deep.logging as dl
+            seen = []
+            saved = dl.logging.config.fileConfig
+            try:
+                dl.logging.config.fileConfig = lambda fname=None, *a, **k: seen.append(fname)
+                dl.init(cfg)
+            finally:
+                dl.logging.config.fileConfig = saved
+            builtin = os.path.join(os.path.dirname(os.path.realpath(dl.__file__)), 'logging.conf')
+            return {'files': ['DEFAULT' if f == builtin else enc(f) for f in seen]}
+        if key == 'SERVICE_AUTH_PROVIDER':
+            from deep.api.auth import AuthProvider
+            p = AuthProvider.get_provider(cfg)
+            return {'provider': None if p is None else type(p).__name__}
+        if key in ('IN_APP_INCLUDE', 'IN_APP_EXCLUDE'):
+            return {'value': enc(getattr(cfg, key)), 'frames': frames(cfg, files)}
+        return {'value': enc(getattr(cfg, key))}
+    except Exception as e:      # noqa: B902
+        return {'raised': type(e).__name__}
+
+
+def run_use(case):
+    """both routes in this process: the code route under the process environment, the environment route after
+    DEEP_<KEY> is set and deep.config re-imported (its settings are read at import); everything restored afterwards"""
+    import importlib
+    import logging as pylog
+    import deep.config as dc
+    from deep.config.tracepoint_config import TracepointConfigService
+    key, var = case['key'], 'DEEP_' + case['key']
+    px = sys.exec_prefix
+    files = [px_sub(f, px) for f in case['files']]
+    with _env_lock:
+        saved = os.environ.get(var)
+        pylog.disable(pylog.CRITICAL)
+        try:
+            os.environ.pop(var, None)
+            importlib.reload(dc)
+            native = mk(json.loads(px_sub(json.dumps(case['native']), px)))
+            code = use_site(dc.ConfigService({key: native, 'APP_ROOT': '/nowhere-root'}, tracepoints=TracepointConfigService()),
+                            key, files)
+            os.environ[var] = px_sub(case['text'], px)
+            importlib.reload(dc)
+            env = use_site(dc.ConfigService({'APP_ROOT': '/nowhere-root'}, tracepoints=TracepointConfigService()), key, files)
+            return {'code': code, 'env': env, 'exec_prefix': px,
+                    'proc_env': {k: v for k, v in os.environ.items() if k.startswith('DEEP_') and k != var}}
+        except Exception as e:      # noqa: B902
+            return {'raised': f'{type(e).__name__}: {e}'}
+        finally:
+            os.environ.pop(var, None)
+            if saved is not None:
+                os.environ[var] = saved
+            importlib.reload(dc)
+            pylog.disable(pylog.NOTSET)
+
+
 def run_impl(case):
     core.use_repo()
-    return {'frame': run_frame, 'lookup': run_lookup, 'timer': run_timer, 'ga': run_ga}[case['kind']](case)
+    return {'use': run_use, 'seq': run_seq, 'frame': run_frame, 'lookup': run_lookup, 'timer': run_timer, 'ga': run_ga}[case['kind']](case)
 
 
 # --------------------------------------------------------------------------------------- reference (from the statement)
@@ -946,8 +1149,36 @@ def oracle_timer(case, obs):
     return v
 
 
+def oracle_use(case, obs):
+    """the statement: a documented setting behaves identically whether given in code or as its DEEP_ variable"""
+    if 'raised' in obs:
+        return ['configuration raised: ' + obs['raised']]
+    v = []
+    if obs['code'] != obs['env']:
+        v.append(f'{case["key"]}: given in code as {case["native"]} its consumer does {obs["code"]}, given as '
+                 f'DEEP_{case["key"]}={case["text"]!r} it does {obs["env"]}')
+    if case['key'] == 'POLL_TIMER':
+        for route in ('code', 'env'):
+            o = obs[route]
+            if 'raised' in o or not o.get('alive') or float(o['interval']) != float(case['text']):
+                v.append(f'POLL_TIMER {case["text"]!r} ({route} route): poll timer {o}, expected a live timer with '
+                         f'interval {float(case["text"])}')
+    return v
+
+
+def oracle_seq(case, obs):
+    if 'raised' in obs:
+        return ['configuration raised: ' + obs['raised']]
+    v = []
+    for i, o in enumerate(obs['steps']):
+        c = seq_step(case, i)
+        v += [f'configuration {i + 1} of {len(obs["steps"])} in this process (root/include/exclude = '
+              f'{c["custom"]} env {c["env"]}): {x}' for x in oracle_frame(c, o)]
+    return v
+
+
 def oracle(case, obs):
-    return {'frame': oracle_frame, 'lookup': oracle_lookup, 'timer': oracle_timer, 'ga': oracle_ga}[case['kind']](case, obs)
+    return {'use': oracle_use, 'seq': oracle_seq, 'frame': oracle_frame, 'lookup': oracle_lookup, 'timer': oracle_timer, 'ga': oracle_ga}[case['kind']](case, obs)
 
 
 # --------------------------------------------------------------------------------------- model
@@ -978,6 +1209,17 @@ def dec_value(d):
 
 def model_request(case, obs):
     k = case['kind']
+    if k == 'use':
+        if 'raised' in obs:
+            return None
+        px = obs['exec_prefix']
+        return {'kind': 'use', 'key': case['key'], 'text': px_sub(case['text'], px), 'px': px,
+                'native': json.loads(px_sub(json.dumps(case['native']), px)), 'env': pairs(obs.get('proc_env', {}))}
+    if k == 'seq' and 'raised' in obs:
+        return None
+    if k == 'seq':
+        reqs = [model_request(seq_step(case, i), o) for i, o in enumerate(obs['steps'])]
+        return None if any(r is None for r in reqs) else {'kind': 'frameseq', 'steps': reqs}
     if 'raised' in obs and k != 'timer':
         return None
     if k == 'timer':
@@ -1002,11 +1244,48 @@ def model_request(case, obs):
     return req
 
 
+def use_mismatch(key, m, o):
+    """does the model's reading of the use site (Use) describe what the real consumer did?"""
+    if m is None:
+        return None         # a documented setting the use-site table does not know: c19_use_site_covers_documented fails
+    if 'unmodelled' in m:
+        return None
+    if 'fails' in m:
+        return None if ('raised' in o or o.get('alive') is False) else 'the consumer did not fail'
+    if 'raised' in o:
+        # provider paths that cannot be imported fail identically on both routes: text the consumer used
+        return None if (key == 'SERVICE_AUTH_PROVIDER' and 'text' in m) else 'the consumer raised'
+    if key == 'SERVICE_URL':
+        return None if [c[1] for c in o['channel']] == [{'s': m.get('text')}] else 'channel target'
+    if key == 'SERVICE_SECURE':
+        return None if [c[0] for c in o['channel']] == ['secure' if m.get('flag') else 'insecure'] else 'channel kind'
+    if key == 'POLL_TIMER':
+        iv = dec_value(m.get('seconds'))
+        return None if (o.get('alive') and iv is not None and float(o['interval']) == iv) else 'interval'
+    if key == 'LOGGING_CONF':
+        return None if o['files'] == (['DEFAULT'] if 'unset' in m else [{'s': m.get('text')}]) else 'logging file'
+    if key == 'SERVICE_AUTH_PROVIDER':
+        return None if (o['provider'] is None) == ('unset' in m) else 'provider'
+    if key in ('IN_APP_INCLUDE', 'IN_APP_EXCLUDE'):
+        return None if o['value'] == {'l': [{'s': p} for p in m.get('prefixes', [])]} else 'prefixes'
+    return None if o.get('value') == {'s': m.get('text')} else 'value'
+
+
 def compare(case, obs, resp):
     if 'error' in resp:
         return ['model error: ' + resp['error']]
     k = case['kind']
     d = []
+    if k == 'use':
+        for route in ('code', 'env'):
+            x = use_mismatch(case['key'], resp[route], obs[route])
+            if x:
+                d.append(f'{case["key"]} ({route} route): model {resp[route]} vs implementation {obs[route]}: {x}')
+        return d
+    if k == 'seq':
+        for i, (o, r) in enumerate(zip(obs['steps'], resp['steps'])):
+            d += [f'configuration {i + 1}: {x}' for x in compare(seq_step(case, i), o, r)]
+        return d
     if k == 'timer':
         iv = dec_value(resp['interval'])
         alive = iv is not None and iv > 0
@@ -1058,6 +1337,10 @@ def label(case, obs):
     k = case['kind']
     if k == 'timer':
         return 'timer/' + ('text' if 's' in case['interval'] else 'number')
+    if k == 'use':
+        return 'use/' + case['key']
+    if k == 'seq':
+        return 'seq/%d' % len(case['steps'])
     if 'raised' in obs:
         return k + '/raised'
     if k == 'ga':
@@ -1077,6 +1360,13 @@ def nontrivial(case, obs):
         return obs.get('ticks', 0) > 0
     if 'raised' in obs:
         return False
+    if k == 'use':
+        # the native value is not the text itself: the consumer's parsing of text is what makes the routes agree
+        return 'raised' not in obs and case['native'] != {'s': case['text']}
+    if k == 'seq':
+        # some file changes its classification or matched prefix between two configurations of the sequence
+        fr = [o.get('frames', []) for o in obs['steps']]
+        return any(a != b for x, y in zip(fr, fr[1:]) for a, b in zip(x, y))
     if k == 'ga':
         # a level below "code" decided for some name, and a code value decided for another
         c = dict((a, b) for a, b in case['custom']) if not case['custom_none'] else {}
@@ -1090,6 +1380,17 @@ def nontrivial(case, obs):
 
 def shrink(case):
     if case['kind'] == 'timer':
+        return
+    if case['kind'] == 'use':
+        return
+    if case['kind'] == 'seq':
+        st, fs = case['steps'], case['files']
+        for i in range(len(st)):
+            if len(st) > 1:
+                yield dict(case, steps=st[:i] + st[i + 1:])
+        for i in range(len(fs)):
+            if len(fs) > 1:
+                yield dict(case, files=fs[:i] + fs[i + 1:])
         return
     if case['kind'] == 'ga':
         ns, cu = case['names'], case['custom']
